@@ -889,13 +889,14 @@ class NonMementoFunctionHashRule(HashRule):
     def _function_name(obj: Callable, symbol: str) -> str:
         """
         Name that identifies the function within the rules of one parent. The qualified name
-        is not unique for lambdas (they are all called `<lambda>`), so the symbol through
-        which the lambda was reached is appended for them.
+        is not unique for lambdas (they are all called `<lambda>`) nor for closures made by
+        one factory (`make.<locals>.inner`), so the symbol through which such a function was
+        reached is appended for them.
 
         """
         # noinspection PyUnresolvedReferences
         name = obj.__module__ + ":" + obj.__qualname__
-        if "<lambda>" in obj.__qualname__:
+        if "<lambda>" in obj.__qualname__ or "<locals>" in obj.__qualname__:
             name += "@" + symbol
         return name
 
